@@ -19,6 +19,45 @@ reg("C12", "exploration",
     "Small-scope hypothesis: forests with more guards are not covered. 'number of guard combinations' is over-approximated by the number of regions, "
     "so coverage is only demanded when even that bound fits --max-configs. Trusted: the 40-line forest printer and region-condition computation.")
 
+
+reg("C15", "model_checking",
+    "stateless deviation-bounded schedule exploration (CHESS-style) of the real thread and process executors under an LD_PRELOAD scheduler, differential against -j1",
+    "Every schedule with <=1 deviation (quick; thorough: <=2 where the run has ~40 choice points, job counts 2 and 3) of the real "
+    "ThreadExecutor / ProcessExecutor in the binary built from /repo is executed once per scenario (files colliding on duplicate filter, "
+    "inline/global suppressions, shared headers, odd bytes, syntax errors, build dir) and its findings multiset, unmatchedSuppression reports "
+    "and exit status are compared with the real -j1 run.",
+    "Scheduling points are synchronisation operations (mutex lock, create, join, once, static guard, thread exit; select/waitpid/large read for "
+    "processes); data races between them are C16's job. Trusted: native/vsched.c (scheduler) and the XML parser.")
+reg("C16", "model_checking",
+    "stateless preemption-bounded schedule exploration of the real thread executor on a ThreadSanitizer build; TSan happens-before as per-schedule oracle",
+    "All schedules with <=1 preemption (quick; <=2 thorough) of the real thread executor are run on the tsan variant; the scheduler serialises "
+    "threads with raw futexes in an uninstrumented library so TSan's vector clocks contain only the program's own synchronisation and it reports "
+    "unordered conflicting accesses on every enumerated schedule, not only those that physically overlap.",
+    "Sequential consistency; races are judged by TSan's happens-before on the enumerated schedules. Trusted: g++ libtsan, native/vsched.c.")
+reg("C17", "model_checking",
+    "exhaustive enumeration of file sequences analysed in one run of the real binary (explicit-state over histories), differential against single-file runs",
+    "All ordered sequences (no repetition) of <=3 (quick) / <=4 (thorough) files from a 13-letter alphabet aimed at per-file state of the reused "
+    "analyzer object are analysed in one run; the result must equal the first-occurrence-deduplicated concatenation of single-file runs "
+    "(plain concatenation with --emit-duplicates).",
+    "Small alphabet; whole-program ids projected out. Trusted: XML parser, concatenation rule.")
+reg("C18", "model_checking",
+    "breadth-first explicit-state search over edit histories with the real binary as transition function, state = canon(workspace, build dir)",
+    "BFS to depth 2 (quick) / 3 (thorough) over 18 edits (token, line/column shifts by 1 and 256, comments, header edits, add/remove/rename files, "
+    "same-basename file, swap, suppress comment, noreturn callee, reorder) x job counts; after every transition the cached run must equal the "
+    "fresh run; violations are delta-minimised to the shortest failing history.",
+    "States are replayed from history on a fresh workspace; equality of state keys merges histories. Trusted: XML parser.")
+reg("C19", "model_checking",
+    "exhaustive enumeration of option-set histories sharing one build directory with the real binary, differential against fresh runs",
+    "All histories of length <=2 (quick) / <=3 (thorough, -j1 and -j2) over 21 option sets on a workspace where every listed option changes a "
+    "finding; each run must equal the fresh run with the same options.",
+    "Fixed workspace; trusted: XML parser. Known finding: checkersReport count (see known_findings.json).")
+reg("C21", "fault_enumeration",
+    "exhaustive fault-plan x schedule enumeration on the real process executor (worker kill points injected by LD_PRELOAD, parent schedules explored)",
+    "For every crashing worker x message boundary x crash kind (5), all pairs and all-workers plans (thorough: also positions inside a message, "
+    "-j3), every parent schedule with <=1 deviation is executed; oracle: termination, internal error naming the file, other files' findings "
+    "unchanged, exit status 7.",
+    "Crash = kill immediately before the k-th write to the result pipe or at exit. Trusted: native/vsched.c.")
+
 ALL = ["C%02d" % i for i in range(1, 37)]
 
 
